@@ -19,12 +19,17 @@ ExtURLs == {<<"E", "https">>, <<"E", "http">>, <<"A", "http">>, <<"P", "https">>
 PullConfs(ops, creds) ==
   {Conf(op, t, c, m, ra, "E", "https") : op \in ops, t \in Bools, c \in creds, m \in Bools, ra \in Bools}
 PushConfs(ops, creds) ==
-  {Conf(op, t, c, FALSE, FALSE, "E", "https") : op \in ops, t \in Bools, c \in creds}
+  {Conf(op, t, c, m, FALSE, "E", "https") : op \in ops, t \in Bools, c \in creds, m \in Bools}
+\* the rarely used request classes (round 4): chunked push with upload status / cancel, paged tag and referrers
+\* listings, referrers fall-back tag read / write, deletes, ping - with and without a mirror that has credentials
+RareOps == {"bputc", "tags", "refs", "refsfb", "mputsub", "mdel", "tdel", "bdel", "ping"}
+RareConfs == {Conf(op, TRUE, c, m, FALSE, "E", "https") : op \in RareOps, c \in {"up", "tok"}, m \in Bools}
 ExtConfs(ops, creds) ==
   {Conf(op, TRUE, c, m, FALSE, e[1], e[2]) : op \in ops, c \in creds, m \in Bools, e \in ExtURLs}
 AllConfs == PullConfs({"mget", "mhead", "bget", "bhead", "two"}, CredKinds)
             \cup PushConfs({"mput", "bput", "copy", "mount"}, CredKinds)
             \cup ExtConfs({"ext", "copyext"}, CredKinds)
+            \cup RareConfs
 \* a smaller space for the deep runs
 CoreConfs == PullConfs({"bget", "two"}, {"up", "uptok"})
              \cup PushConfs({"bput", "copy"}, {"up"})
@@ -34,8 +39,9 @@ QuickBase ==
   {Conf("bget", TRUE, c, m, FALSE, "E", "https") : c \in {"up", "uptok"}, m \in Bools}
   \cup {Conf("mget", t, "up", TRUE, FALSE, "E", "https") : t \in Bools}
   \cup {Conf("two", TRUE, "up", FALSE, ra, "E", "https") : ra \in Bools}
-  \cup {Conf("bput", TRUE, "up", FALSE, FALSE, "E", "https"), Conf("mput", TRUE, "tok", FALSE, FALSE, "E", "https"),
+  \cup {Conf("bput", TRUE, "up", TRUE, FALSE, "E", "https"), Conf("mput", TRUE, "tok", TRUE, FALSE, "E", "https"),
         Conf("copy", TRUE, "up", FALSE, FALSE, "E", "https")}
+  \cup {Conf(op, TRUE, "up", TRUE, FALSE, "E", "https") : op \in {"bputc", "tags", "refs", "mputsub"}}
   \cup {Conf("ext", TRUE, "up", FALSE, FALSE, e[1], e[2]) : e \in ExtURLs}
   \cup {Conf("mount", TRUE, "up", FALSE, TRUE, "E", "https")}
 QuickGenConfs ==
@@ -51,7 +57,9 @@ MidGenConfs == {IF c.mirror THEN c ELSE WithPorts(c) : c \in MidBase}
   \cup {WithCred(Conf(op, TRUE, "up", TRUE, FALSE, "E", "https"), "M", k) : op \in {"mget", "bget"}, k \in {"tok", "uptok", "none"}}
   \cup {WithCred(Conf("copy", TRUE, "up", FALSE, FALSE, "E", "https"), "B", k) : k \in {"tok", "uptok", "none"}}
   \cup {Conf("mount", TRUE, "tok", FALSE, TRUE, "E", "https"), Conf("mount", TRUE, "uptok", TRUE, FALSE, "E", "https"),
-        Conf("mount", TRUE, "up", FALSE, FALSE, "E", "https")}
+        Conf("mount", TRUE, "up", FALSE, FALSE, "E", "https"), Conf("copy", TRUE, "up", TRUE, FALSE, "E", "https")}
+  \cup {Conf(op, TRUE, "up", TRUE, FALSE, "E", "https") : op \in {"refsfb", "mdel", "tdel", "bdel", "ping"}}
+  \cup {Conf(op, TRUE, "tok", TRUE, TRUE, "E", "https") : op \in {"bputc", "tags", "refs", "mputsub"}}
 OtherCreds == {WithCred(c, "M", k) : c \in {x \in AllConfs : x.mirror}, k \in {"tok", "uptok", "none"}}
               \cup {WithCred(c, "B", k) : c \in {x \in AllConfs : x.op \in {"copy", "copyext"}}, k \in {"tok", "uptok", "none"}}
 SimConfs == AllConfs \cup {WithPorts(c) : c \in AllConfs} \cup OtherCreds
